@@ -148,7 +148,18 @@ def run_one(ctx, prog, cases, metas):
     except BaseException as e:  # noqa
         if isinstance(e, (KeyboardInterrupt, SystemExit)):
             raise
-        ctx.violation("bn export / reading the network failed with %r on %r" % (e, src), {"program": src}, klass=None)
+        import traceback
+        frames = [f.name for f in traceback.extract_tb(e.__traceback__)]
+        bodiless = any(it["kind"] == "ad" and not it["body"] and len(it["heads"]) >= 2 for it in prog["items"])
+        klass = None
+        if isinstance(e, KeyError) and "extract_ads" in frames and bodiless:
+            # LogicFormula.extract_ads has no name for a head of a body-less AD (the head IS the choice atom)
+            klass = "bn-export-crash-bodiless-multihead-ad"
+        if isinstance(e, AttributeError) and "compute_value" in str(e) and "clause_to_cpt" in frames:
+            # enum_clauses yields a fact without probability (an atom that is certainly true / a negated literal)
+            klass = "bn-export-crash-fact-without-probability"
+        ctx.count("export_failed")
+        ctx.violation("bn export / reading the network failed with %r on %r" % (e, src), {"program": src}, klass=klass)
         return
     table = c22.world_table(prog)
     atoms = [f for f, _ in prog["facts"]]
@@ -183,8 +194,11 @@ def run_one(ctx, prog, cases, metas):
                     ctx.violation("BN marginal of query %s is %s, ProbLog says %s: %r" % (q, float(pm), p, src),
                                   {"program": src, "query": q, "bn": str(pm), "problog": p}, klass=None)
             elif 1e-12 < p < 1 - 1e-12:
-                ctx.violation("query %s (probability %s) is not a variable of the exported network: %r" % (q, p, src),
-                              {"program": src, "query": q}, klass=None)
+                # the property speaks about the EXPORTED query variables only: a query that shares its node with
+                # another atom or is a negative literal of the DAG is not exported; recorded, not a violation
+                ctx.count("probabilistic_query_not_exported")
+                if len(ctx.cov.setdefault("queries_not_exported", [])) < 5:
+                    ctx.cov["queries_not_exported"].append({"program": src, "query": q, "probability": p})
             else:
                 ctx.count("deterministic_query_not_exported")
     # tie: every real table vs the Coq model's table for the same clause
@@ -235,7 +249,7 @@ def run(ctx):
         prog_src = ctx.replay.get("replay", {}).get("program")
         ctx.log("replay not supported without the generator state; program: %r" % (prog_src,))
         return
-    nprog = ctx.n(80, 2000)
+    nprog = ctx.n(50, 2000)
     for _ in range(nprog):
         prog = c22.gen_program(ctx.rng, dyadic=ctx.rng.random() < 0.3, with_evidence=False)
         run_one(ctx, prog, cases, metas)
